@@ -295,3 +295,49 @@ def walrus_in_lambda_in_class_comprehension(replay):
             if any(isinstance(s, ast.Lambda) for s in chain[:upto]):
                 return True
     return False
+
+
+_BREAK_KEYWORDS = ('import', 'class', 'def', 'try', 'except', 'finally', 'while', 'with', 'return', 'continue', 'break', 'del', 'pass', 'global', 'assert', 'nonlocal')
+
+
+def statement_cut_off_by_bracket_break(replay):
+    """F52: the tree holds a keyword at which the tokenizer gives up an unclosed bracket (import, class, def, try, ... at the start of a line, as keyword or
+    as error leaf) such that, going back from it, there is before any NEWLINE leaf an opening bracket that is not closed - and no unterminated
+    single-quoted f-string, which ends with its line and whose open field is therefore no bracket that is still open on the following lines"""
+    import parso
+    text = _text(replay)
+    v = replay.get('version') or replay.get('case', {}).get('version') or '3.10'
+    m = parso.load_grammar(version=v).parse(text)
+    triple = ("'''", '"""')
+
+    def broken_at(kw):
+        l = kw.get_previous_leaf()
+        depth = fdepth = 0
+        opened = False
+        while l is not None:
+            if l.type == 'newline':
+                break
+            if l.type == 'fstring_end':
+                fdepth += 1
+            elif l.type == 'fstring_start':
+                if fdepth > 0:
+                    fdepth -= 1
+                elif not l.value.endswith(triple):
+                    return False
+                else:
+                    opened = True
+            elif l.type in ('operator', 'error_leaf') and l.value in (')', ']', '}'):
+                depth += 1
+            elif l.type in ('operator', 'error_leaf') and l.value in ('(', '[', '{'):
+                if depth > 0:
+                    depth -= 1
+                else:
+                    opened = True
+            l = l.get_previous_leaf()
+        return opened
+    l = m.get_first_leaf()
+    while l is not None:
+        if l.type in ('keyword', 'error_leaf') and l.value in _BREAK_KEYWORDS and re.search(r'[\r\n]', l.prefix) and broken_at(l):
+            return True
+        l = l.get_next_leaf()
+    return False
